@@ -55,3 +55,24 @@ Section Spec.
     str_in op (pw_ops ++ ["CastLike"%string]) = true -> sem op ats vs <> None -> Forall2 same_elems vs vs' ->
     (op = "CastLike"%string \/ operands_ok vs') -> sem op ats vs' <> None.
 End Spec.
+
+(* the same, for passes that match operators through a normaliser of the node's operator string (_op_type) *)
+Section SpecNorm.
+  Variable A : Type.
+  Notation V := (tensor A).
+  Variable sem : string -> list nat -> list V -> option (list V).
+  Variable norm : string -> string.
+
+  (* ONNX Transpose; the attribute payload of a node with an INTS attribute perm is 1 :: perm *)
+  Definition sem_transpose_spec : Prop := forall op perm vs o, norm op = "Transpose"%string -> sem op (1 :: perm) vs = Some o ->
+    exists x y, vs = [x] /\ o = [y] /\ teq y (transpose perm x) /\ length perm = length (shape x).
+  Definition sem_pointwise_spec_n (F : string -> list nat -> list A -> A) : Prop :=
+    forall op ats vs o, str_in (norm op) pw_ops = true -> sem op ats vs = Some o -> operands_ok vs ->
+      exists y, o = [y] /\ teq y (pwn (F (norm op) ats) vs).
+  Definition sem_castlike_spec_n (Fcl : list nat -> V -> A -> A) : Prop :=
+    forall op ats vs o, norm op = "CastLike"%string -> sem op ats vs = Some o ->
+      exists x t y, vs = [x; t] /\ o = [y] /\ teq y (tmap (Fcl ats t) x).
+  Definition sem_accepts_spec_n : Prop := forall op ats vs vs',
+    str_in (norm op) (pw_ops ++ ["CastLike"%string]) = true -> sem op ats vs <> None -> Forall2 same_elems vs vs' ->
+    (norm op = "CastLike"%string \/ operands_ok vs') -> sem op ats vs' <> None.
+End SpecNorm.
